@@ -123,4 +123,89 @@ theorem tie_get_area_slices_tail (xs ys : Gen.PySl Int) (w h : Int) (f : Option 
        | none => (Gen.check_slice_orientation xs, Gen.check_slice_orientation ys)) := by
   cases f <;> rfl
 
+/-! ### `RowAppendableArray.append_row` / `to_array` (1-D arrays, or stacks of rows read row by row) -/
+section RowAppend
+open C19
+
+/-- reading of the model's cells: an uninitialised cell (`none`) holds the arbitrary value `g` -/
+def rdCells (g : Int) (l : List (Option Int)) : List Int := l.map (·.getD g)
+
+theorem pySliceStore_to_end (x e : List Int) (c : Nat) (hc : c ≤ x.length) (he : e.length = x.length - c) :
+    Gen.pySliceStore x (c : Int) none e = some (x.take c ++ e) := by
+  unfold Gen.pySliceStore Gen.pyClampIdx
+  have h1 : ¬ ((c : Int) < 0) := by omega
+  simp only [h1, if_false, Int.toNat_natCast, Nat.min_eq_left hc]
+  rw [if_pos he]
+  have : c + (x.length - c) = x.length := by omega
+  simp [this]
+
+theorem pySliceStore_mid (x e : List Int) (c : Nat) (hc : c + e.length ≤ x.length) :
+    Gen.pySliceStore x (c : Int) (some ((c : Int) + (e.length : Int))) e = some (x.take c ++ e ++ x.drop (c + e.length)) := by
+  unfold Gen.pySliceStore Gen.pyClampIdx
+  have h1 : ¬ ((c : Int) < 0) := by omega
+  have h2 : ¬ ((c : Int) + (e.length : Int) < 0) := by omega
+  have h3 : ((c : Int) + (e.length : Int)).toNat = c + e.length := by omega
+  simp only [h1, h2, if_false, Int.toNat_natCast, h3, Nat.min_eq_left (show c ≤ x.length by omega), Nat.min_eq_left hc]
+  have : c + e.length - c = e.length := by omega
+  simp [this]
+
+theorem rdCells_length (g : Int) (l : List (Option Int)) : (rdCells g l).length = l.length := by simp [rdCells]
+
+/-- the two branches of the generated body on an allocated buffer `d` -/
+theorem row_append_core (g : Int) (d : List (Option Int)) (c : Nat) (next : List Int) (hc : c ≤ d.length) (cap : Int) :
+    Gen.row_append g cap (some (rdCells g d)) (c : Int) next
+      = some (rdCells g (if c + next.length > d.length then
+                d.take c ++ (next.take (d.length - c)).map some ++ (next.drop (d.length - c)).map some
+              else d.take c ++ next.map some ++ d.drop (c + next.length)), ((c + next.length : Nat) : Int)) := by
+  have hl := rdCells_length g d
+  unfold Gen.row_append
+  simp only [hl]
+  by_cases h : c + next.length > d.length
+  · have h' : ((c : Int) + (next.length : Int) > (d.length : Int)) := by omega
+    have hrem : ((d.length : Int) - (c : Int)) = ((d.length - c : Nat) : Int) := by omega
+    have hnn : ¬ (((d.length - c : Nat) : Int) < 0) := by omega
+    simp only [h', decide_true, if_true, hrem, Gen.pyListTake, Gen.pyListDrop, hnn, if_false, Int.toNat_natCast, h]
+    rw [pySliceStore_to_end _ _ c (by omega) (by simp [hl]; omega)]
+    simp [rdCells, List.map_take, Function.comp_def]
+  · have h' : ¬ ((c : Int) + (next.length : Int) > (d.length : Int)) := by omega
+    simp only [h', decide_false, h, if_false]
+    rw [pySliceStore_mid _ _ c (by rw [hl]; omega)]
+    simp [rdCells, List.map_take, List.map_drop, Function.comp_def]
+
+/-- the first append allocates: from there on the code runs as on an allocated buffer full of the arbitrary value -/
+theorem row_append_alloc (g cap c : Int) (next : List Int) :
+    Gen.row_append g cap none c next = Gen.row_append g cap (some (List.replicate cap.toNat g)) c next := by
+  unfold Gen.row_append; rfl
+
+/-- **one append**: `RowAppendableArray.append_row` as translated from the source, run on the reading of a model state whose
+cursor is inside its buffer (which `cursor_le_buffer` proves of every reachable state), never raises and yields the reading of
+the model's next state -/
+theorem tie_row_append (g : Int) (s : RowApp Int) (next : List Int) (hc : s.cursor ≤ s.buf.length) :
+    Gen.row_append g (s.cap : Int) (s.data.map (rdCells g)) (s.cursor : Int) next
+      = some (rdCells g (s.appendRow next).buf, ((s.appendRow next).cursor : Int)) := by
+  have key : ∀ d : List (Option Int), s.buf = d → s.cursor ≤ d.length →
+      Gen.row_append g (s.cap : Int) (some (rdCells g d)) (s.cursor : Int) next
+        = some (rdCells g (s.appendRow next).buf, ((s.appendRow next).cursor : Int)) := by
+    intro d hd hcd
+    rw [row_append_core g d s.cursor next hcd]
+    unfold RowApp.appendRow
+    simp only [hd]
+    by_cases h : s.cursor + next.length > d.length <;> simp [h, RowApp.buf]
+  cases hdat : s.data with
+  | some d =>
+    have hb : s.buf = d := by simp [RowApp.buf, hdat]
+    simpa [hdat] using key d hb (hb ▸ hc)
+  | none =>
+    have hb : s.buf = List.replicate s.cap none := by simp [RowApp.buf, hdat]
+    have := key _ hb (hb ▸ hc)
+    simp only [Option.map_none, row_append_alloc]
+    simpa [rdCells] using this
+
+/-- `to_array` as translated = the reading of the model's `toArray` (cursor inside the buffer) -/
+theorem tie_row_to_array (g : Int) (d : List (Option Int)) (c : Nat) :
+    Gen.row_to_array (rdCells g d) (c : Int) = rdCells g (d.take c) := by
+  simp [Gen.row_to_array, Gen.pyListTake, rdCells, List.map_take]
+
+end RowAppend
+
 end PyresampleModel.Tie
